@@ -90,6 +90,33 @@ def run_twin(kind, props):
         shutil.rmtree(tmp, ignore_errors=True)
 
 
+def run_refactoring(name, props):
+    """an independently written, confirmed behaviour-preserving refactoring (refactors/<name>/patch.diff) listed as silent"""
+    import subprocess
+    tmp = Path(tempfile.mkdtemp(prefix="physt-refactoring-"))
+    try:
+        (tmp / "src").mkdir()
+        shutil.copytree(SRC, tmp / "src" / "physt")
+        r = subprocess.run(["patch", "-p1", "-s", "--no-backup-if-mismatch", "-i", str(VERIF / "refactors" / name / "patch.diff")], cwd=tmp, capture_output=True)
+        if r.returncode:
+            return dict(name=f"refactoring/{name}", kind="twin", status="not-applicable", results={}, why="patch no longer applies")
+        bad = {}
+        for p in props:
+            rc, inst, err = _check(p, tmp / "src" / "physt")
+            base_rc, base_inst, _ = BASE.get(p, (0, [], ""))
+            extra = [i for i in inst if i not in base_inst]
+            if rc == 2 or extra:
+                bad[p] = dict(rc=rc, instances=extra[:4], err=err)
+        return dict(name=f"refactoring/{name}", kind="twin", status="silent" if not bad else "FIRED", results=bad)
+    finally:
+        shutil.rmtree(tmp, ignore_errors=True)
+
+
+def silent_refactorings():
+    f = VERIF / "refactors" / "SILENT.json"
+    return json.loads(f.read_text()) if f.exists() else []
+
+
 BASE = {}
 
 
@@ -116,6 +143,8 @@ def main(argv=None) -> int:
         if a.only in ("", "twins"):
             for k in ("unparse", "pad", "rename", "kwshuffle", "ifswap", "nodoc", "swapassign"):
                 futs.append(ex.submit(run_twin, k, props))
+            for name in silent_refactorings():
+                futs.append(ex.submit(run_refactoring, name, props))
         for f in futs:
             results.append(f.result())
     bad = [r for r in results if r["status"] in ("MISSED", "FIRED")]
